@@ -2,7 +2,9 @@
 # usage: tools/seeded_run.sh <property id> <seeded dir name>   e.g. tools/seeded_run.sh C08 m1
 # Applies /verif/seeded/<id>/<name>/patch.diff to /repo, runs ./check <id> (quick) and, when given, the
 # other checks listed in CHECKS, undoes the change straight afterwards, and stores the outcome in
-# /verif/seeded/<id>/<name>/detected.json.
+# /verif/seeded/<id>/<name>/detected.json (return code, number of VIOLATION lines, whether a concrete
+# input was found, the first witness and the broken obligations/ties).  The evidence file of the
+# property is put back afterwards (evidence/ describes the unchanged tree only).
 set -u
 ID=$1; NAME=$2; D=/verif/seeded/$ID/$NAME
 CHECKS=${CHECKS:-$ID}
@@ -11,14 +13,45 @@ if [ -n "$(git status --porcelain --untracked-files=no)" ]; then echo "/repo is 
 git apply "$D/patch.diff" || { echo "patch does not apply"; exit 2; }
 trap 'git -C /repo checkout -- . ; git -C /repo clean -fdq src tests >/dev/null 2>&1' EXIT
 cd /verif
-RES="{"
+TMP=$(mktemp -d /verif/.scratch/seeded.XXXXXX)
 for C in $CHECKS; do
+  cp evidence/$C.json $TMP/$C.evidence.json 2>/dev/null
   OUT=$(timeout 1800 ./check $C --tier quick 2>&1); RC=$?
+  echo "$OUT" > $TMP/$C.out; echo $RC > $TMP/$C.rc
   V=$(echo "$OUT" | grep -c '^VIOLATION')
   NF=$(echo "$OUT" | grep -c 'no-failing-input-found')
   echo "[$ID/$NAME] check $C: rc=$RC violations=$V no-failing-input=$NF"
   echo "$OUT" | grep '^VIOLATION\|^\[C' | head -8
-  RES="$RES\"$C\": {\"rc\": $RC, \"violation_lines\": $V, \"no_failing_input_found\": $NF},"
+  cp $TMP/$C.evidence.json evidence/$C.json 2>/dev/null
 done
-RES="${RES%,}}"
-echo "$RES" > "$D/detected.json"
+/venv/bin/python - "$TMP" "$D" $CHECKS <<'EOF'
+import json, re, sys
+tmp, d, checks = sys.argv[1], sys.argv[2], sys.argv[3:]
+res = {}
+for c in checks:
+    out = open(f'{tmp}/{c}.out').read()
+    rc = int(open(f'{tmp}/{c}.rc').read())
+    vl = [l for l in out.splitlines() if l.startswith('VIOLATION')]
+    r = {'rc': rc, 'violation_lines': len(vl),
+         'no_failing_input_found': sum('no-failing-input-found' in l for l in vl)}
+    m = re.search(r'\[C\d\d\].*', out)
+    if m:
+        r['summary'] = m.group(0)[:400]
+    wit = []
+    for l in vl[:5]:
+        p = re.search(r'replay=(\S+)', l).group(1)
+        try:
+            j = json.load(open(p))
+        except Exception:
+            continue
+        if j.get('kind') == 'input':
+            wit.append({'key': j.get('key'), 'what': str(j.get('what'))[:400],
+                        'witness': json.dumps(j.get('witness'), default=str)[:600]})
+            r.setdefault('broken', [str(b)[:200] for b in (j.get('broken') or [])][:6])
+        else:
+            r['broken'] = [str(b)[:300] for b in (j.get('no_longer_checks') or [])][:6]
+    r['witnesses'] = wit[:3]
+    res[c] = r
+json.dump(res, open(f'{d}/detected.json', 'w'), indent=1)
+EOF
+rm -rf $TMP
